@@ -91,8 +91,7 @@ def mutators(w, kinds, allow_fit, nadd_max):
         d = {p: val for p, val in w.point(pid).items() if p not in w.fixed}
         if d:
             ops.append(("set", d))
-    if not w.fixed:
-        ops.append(("setall", list(w.point("P1").values())))
+    ops.append(("setall", list(w.point("P1").values())))  # a fixed parameter stays fixed, at the value it is given
     if p0 not in w.fixed:
         ops.append(("set", {p0: w.point("P2")[p0]}))
     for p in (p0, p1):
@@ -137,8 +136,8 @@ def neutral_segments(w, reads, tier, allow_fit):
     for p in w.par_names[:2]:
         if p not in w.fixed:
             segs.append((("fix", p), ("rel", p)))
-            if not w.fitted:  # after a fit, re-assigning a value legitimately ends the fitted status
-                segs.append((("set", {p: w.pv[p] * 1.3 + 0.2}), ("set", {p: w.pv[p]})))
+        if not w.fitted:  # after a fit, re-assigning a value legitimately ends the fitted status
+            segs.append((("set", {p: w.pv[p] * 1.3 + 0.2}), ("set", {p: w.pv[p]})))  # also for a fixed parameter: it stays fixed
         if p not in w.limits and p not in w.fixed:
             lo, hi = sorted((w.pv[p] - abs(w.pv[p]) - 1.0, w.pv[p] + abs(w.pv[p]) + 1.0))
             segs.append((("lim", p, lo, hi), ("unlim", p)))
